@@ -177,6 +177,7 @@ def range_case(draw):
         a = ["v", draw(st.sampled_from([sb[1][c["axis"]], sb[2][c["axis"]]]))]
     c["sel"] = [a, b]
     c["container"] = draw(st.sampled_from(["tuple", "list", "array"]))
+    c["int_bounds"] = draw(st.booleans())
     return c
 
 
@@ -195,6 +196,11 @@ def check_range(case):
     a, b = case["sel"]
     lo_s, hi_s = (a, b) if spec_pos(a) <= spec_pos(b) else (b, a)
     xa, xb = coord(lat, d, a), coord(lat, d, b)
+    if case.get("int_bounds", True):
+        # whole-number bounds are given as Python ints (mixed with a fractional other bound: (0, 7.5))
+        xa, xb = (int(xa) if float(xa).is_integer() else xa), (int(xb) if float(xb).is_integer() else xb)
+        if isinstance(xa, int) != isinstance(xb, int):
+            tag("mixed-int-float-bounds")
     conv = {"tuple": tuple, "list": list, "array": np.array}[case["container"]]
     tag("face-bound" if "v" in (a[0], b[0]) else "interior-bounds")
     on_sub_face = any(s[0] == "v" and any(s[1] in (sb[1][d], sb[2][d]) for sb in case["subs"]) for s in (a, b))
